@@ -13,17 +13,18 @@ import (
 // a deviation bound (iterative context bounding) and an optional memo keyed
 // by the happens-before hash of the execution so far.
 type Explorer struct {
-	Name     string
-	Bound    int
-	Delay    bool // delay-bounded policy instead of free switches at blocking points
-	UseMemo  bool
-	MaxSteps uint64
-	Horizon  int64 // virtual ns
-	Trace    bool
-	Deadline time.Time // wall-clock budget: exceeding it stops the search, exhaustive=false
-	MaxExec  int64
-	Shard    int // this process explores subtrees with hash(depth-2 prefix) % Shards == Shard
-	Shards   int
+	Name        string
+	Bound       int
+	Delay       bool // delay-bounded policy instead of free switches at blocking points
+	UseMemo     bool
+	MaxSteps    uint64
+	Horizon     int64 // virtual ns
+	EarlyWindow int64 // a timer may be fired early (deviation) only if due within this much virtual time
+	Trace       bool
+	Deadline    time.Time // wall-clock budget: exceeding it stops the search, exhaustive=false
+	MaxExec     int64
+	Shard       int // this process explores subtrees with hash(depth-2 prefix) % Shards == Shard
+	Shards      int
 
 	memo map[key]int32
 
@@ -41,6 +42,7 @@ type Outcome struct {
 	Status     Status
 	Detail     string
 	Leaks      []string
+	Timers     []string // timers still armed when main returned
 	Violations []Violation
 	Log        []string
 	Clock      int64 // clock when main returned (or at end)
@@ -112,6 +114,7 @@ func (e *Explorer) runOnce(prefix []int, trace bool) *exec {
 	x := &exec{points: s.points, choices: s.choices, costAt: s.costAt}
 	o := &x.out
 	o.Status, o.Detail, o.Leaks, o.Violations, o.Log = s.status, s.detail, s.leaks, s.viols, s.log
+	o.Timers = s.pendingTimers
 	o.Clock, o.EndClock, o.Cost, o.Crash = s.mainClock, s.clock, s.cost, s.crash
 	var hs []uint64
 	for _, t := range s.threads {
